@@ -21,6 +21,10 @@ def stGeneric {α : Type} (c : Codec α) (op : String) (args : List String) : M 
     emit2 (sOut c.s (Stream.ifStream (← need (pOut pB cond)) (← need (pOut c.p i))))
   | "ifelse", [cond, t, f] =>
     emit2 (sOut c.s (Stream.ifElse (← need (pOut pB cond)) (← need (pOut c.p t)) (← need (pOut c.p f))))
+  | "ifelsemx", [cond, t, f] =>
+    -- IfElse(armed, If(armed, a), If(Not(armed), b)) with ONE shared condition getter (behind a Mutex in the harness)
+    let cnd ← need (pOut pB cond)
+    emit2 (sOut c.s (Stream.ifElse cnd (Stream.ifStream cnd (← need (pOut c.p t))) (Stream.ifStream (Stream.notStream cnd) (← need (pOut c.p f)))))
   | "expirer", [i, now, md] =>
     emit2 (sOut c.s (Stream.expirer (← need (pOut c.p i)) (← need (pTimeOut now)) (← need md.toInt?)))
   | "n2e", [i] => emit2 (sOut c.s (Stream.noneToError (← need (pOut c.p i))))
